@@ -307,7 +307,7 @@ theorem retype_last (hW : WOk W) {q : Parser} (hr : Ready q) (Sg : Grid)
     have hidx : Sg.size.cols - 2 + 1 = Sg.size.cols - 1 := by omega
     obtain ⟨cellF, cc, etype, vF, kF, vcc, kcc⟩ := type_cell_wide_over W (g := withPos R.g ⟨k, Sg.size.cols - 2⟩)
       (by simp only [withPos]; exact hu) Sg.rows[k].cells[Sg.size.cols - 2].attrs f _ zs Rk
-      Rk.cells[Sg.size.cols - 2] Rk.cells[Sg.size.cols - 1] rfl hw2 ht.first ht.zero
+      Rk.cells[Sg.size.cols - 2] Rk.cells[Sg.size.cols - 1] rfl (by omega) ht.first ht.zero
       (by simp only [withPos]; rw [hinv.hcols]; have := ht.fits; rw [hswd] at this; exact this)
       (by simpa [withPos] using hRk) (by simp [withPos, List.getElem?_eq_getElem hk2]) (by rw [hfw, hwide])
       (by rw [hfc, hncont]) (h22k _ (List.getElem_mem hk2))
